@@ -17,7 +17,7 @@ try:
         s = open(p, newline="").read()
         n = s.count(b["old"])
         if n != b.get("count", 1):
-            res.append((b["name"], "BAD-EDIT (old text occurs %d times)" % n, "")); continue
+            res.append((b["name"], "BAD-EDIT (old text occurs %d times)" % n, "")); print("%-40s %-12s %s" % res[-1], flush=True); continue
         open(p, "w", newline="").write(s.replace(b["old"], b["new"]))
         env = dict(os.environ, PBMON_REPO=wt, PBMON_OUT=wt + ".out")
         r = subprocess.run(["./check", prop, tier], cwd="/verif", env=env, capture_output=True, text=True)
